@@ -34,6 +34,11 @@ inductive CPc where
   | setErr | trClose | cancel | fire
   deriving DecidableEq, Repr
 
+/-- the closer has not yet stored its error nor touched the transport -/
+def CPc.waiting : CPc → Bool
+  | .len _ | .load _ | .sleep _ | .setErr => true
+  | _ => false
+
 structure St (α : Type) where
   sync : Bool := false
   cap : Nat := 1
@@ -126,7 +131,7 @@ def step (s : St α) : Act α → Option (St α)
     | some .writev =>
       if s.batch = [] then none
       else if ok && !s.trClosed then some { s with wire := s.wire ++ s.batch, batch := [], snd := some (.put s.batch.length) }
-      else if !ok && s.trClosed then some { s with snd := some .failed, broken := true }
+      else if !ok then some { s with snd := some .failed, broken := true }    -- the transport failed (closed, or any I/O error)
       else none
     | _ => none
   | .sndPut =>
